@@ -4,6 +4,7 @@ package c03
 import (
 	"encoding/json"
 	"fmt"
+	"time"
 
 	"golang.org/x/mod/sumdb/tlog"
 
@@ -175,6 +176,102 @@ func (c *ctx) mutate(kind string, lg *tlogx.Log, p []tlog.Hash, t int64, th tlog
 	}
 }
 
+// hugeSizes substitutes sizes and indexes around 2^62 and up to MaxInt64 into honest tuples of small
+// trees (every t <= 9, every n) and calls the provers with them. Each call runs under a watchdog:
+// the checker must return (the RFC verdict), the provers must return an error, nothing may hang.
+func hugeSizes(r *fw.Run, lg *tlogx.Log) {
+	l := fw.NewLocal()
+	defer r.Merge(l)
+	huge := []int64{1<<62 - 1, 1 << 62, 1<<62 + 1, 1<<62 + 2, 3 << 61, 1<<63 - 2, 1<<63 - 1}
+	r.Bounds["huge_sizes"] = huge
+	guard := func(key, what string, cs caseT, f func() string) bool {
+		done := make(chan string, 1)
+		go func() {
+			defer func() {
+				if e := recover(); e != nil {
+					done <- fmt.Sprintf("panic: %v", e)
+				}
+			}()
+			done <- f()
+		}()
+		l.Execs++
+		l.Transitions++
+		select {
+		case msg := <-done:
+			if msg != "" {
+				r.Violation(key, what+": "+msg, cs)
+			}
+			return true
+		case <-time.After(90 * time.Second):
+			r.Violation(key, what+": no result after 90 s (the call does not terminate)", cs)
+			return false
+		}
+	}
+	for t := int64(1); t <= 9; t++ {
+		th := lg.Root(int(t))
+		for n := int64(0); n < t; n++ {
+			leaf := tlog.Hash(lg.Ref.Leaves[n])
+			p, _ := tlog.ProveRecord(t, n, lg)
+			tp, _ := tlog.ProveTree(t, n+1, lg)
+			old := lg.Root(int(n + 1))
+			l.States++
+			for _, H := range huge {
+				for _, c := range []struct {
+					kind   string
+					p      []tlog.Hash
+					t2, n2 int64
+					h      tlog.Hash
+				}{
+					{"record", p, H, n, leaf}, {"record", p, t, H, leaf}, {"record", p, H, H - 1, leaf}, {"record", p, H, H / 2, leaf}, {"record", nil, H, 0, leaf},
+					{"tree", tp, H, n + 1, old}, {"tree", tp, t, H, old}, {"tree", tp, H, H, th}, {"tree", tp, H, H - 1, old}, {"tree", nil, H, 1 << 62, old},
+				} {
+					c := c
+					key := fmt.Sprintf("huge:%s:t%d:n%d:from-t%d-n%d", c.kind, c.t2, c.n2, t, n)
+					ok := guard(key, fmt.Sprintf("Check %s with t=%d n=%d (honest tuple of t=%d n=%d)", c.kind, c.t2, c.n2, t, n), mk(c.kind, 0, 9, c.p, c.t2, th, c.n2, c.h, "huge"), func() string {
+						msg, acc := agree(c.kind, c.p, c.t2, th, c.n2, c.h)
+						if acc {
+							l.Outcomes[c.kind+":mutant-still-valid"]++
+						} else {
+							l.Outcomes[c.kind+":rejected"]++
+						}
+						return msg
+					})
+					if !ok {
+						return
+					}
+				}
+			}
+		}
+	}
+	// provers on huge sizes over a small store: an error, not a hang or a panic (TreeHash is not a
+	// prover or checker: TreeHash(MaxInt64) panics with "bad math in subTreeIndex", noted in DESIGN 11)
+	for _, H := range huge {
+		H := H
+		for _, c := range []struct {
+			name string
+			f    func() error
+		}{
+			{"ProveRecord(H,0)", func() error { _, err := tlog.ProveRecord(H, 0, lg); return err }},
+			{"ProveRecord(H,H-1)", func() error { _, err := tlog.ProveRecord(H, H-1, lg); return err }},
+			{"ProveTree(H,1)", func() error { _, err := tlog.ProveTree(H, 1, lg); return err }},
+			{"ProveTree(H,H-1)", func() error { _, err := tlog.ProveTree(H, H-1, lg); return err }},
+		} {
+			c := c
+			key := fmt.Sprintf("huge:%s:H=%d", c.name, H)
+			ok := guard(key, fmt.Sprintf("%s with H=%d over a %d-record store", c.name, H, lg.N()), caseT{Kind: "prover", Size: 9, T: H, Note: c.name}, func() string {
+				if err := c.f(); err == nil {
+					return "succeeded although the store cannot hold such a tree"
+				}
+				l.Outcomes["prover:huge-refused"]++
+				return ""
+			})
+			if !ok {
+				return
+			}
+		}
+	}
+}
+
 func eq(a []tlog.Hash, b []rfc6962.Hash) bool {
 	if len(a) != len(b) {
 		return false
@@ -193,7 +290,7 @@ func Run(r *fw.Run) {
 	r.Bounds["patterns"] = []string{"all distinct", "all equal", "period 3"}
 	r.Bounds["closed_world"] = "t<=5, pool of 8 true node hashes, all proofs of length 0..4, all n, roots and leaves over the pool"
 	r.Rule = "state = (pattern, t, n) with its honest proof; transitions = every single mutation of every component (proof element <- every pool hash / bit flip / delete / insert / swap / reverse; n over [-1,t+1]; t over [-1,t_max+1] and huge; leaf/old root and root <- pool) plus the closed-world enumeration. Each tuple is executed on tlog.Check* and on the RFC 9162 algorithm; non-trivial = honest tuple or mutant that remains valid; outcome = accepted/rejected per checker kind"
-	r.Assume = []string{"SHA-256 collision resistance (acceptance equivalence is exact anyway: both sides compute the same hash expression)", "tree sizes above 2^62 are outside the bound (tlog.maxpow2 overflows there, DESIGN 6 S9)"}
+	r.Assume = []string{"SHA-256 collision resistance (acceptance equivalence is exact anyway: both sides compute the same hash expression)", "sizes between the enumerated bound and 2^62 are probed at 2^31, 2^40 and around 2^62..2^63-1 only"}
 	type job struct{ pat, t int }
 	var jobs []job
 	for pat := 0; pat < 3; pat++ {
@@ -296,6 +393,7 @@ func Run(r *fw.Run) {
 		}
 		r.Merge(c.l)
 	})
+	hugeSizes(r, logs[0])
 	lg := logs[0]
 	p, _ := tlog.ProveRecord(7, 2, lg)
 	r.Sample(mk("record", 0, tmax, p, 7, lg.Root(7), 2, tlog.Hash(lg.Ref.Leaves[2]), "honest"))
@@ -375,7 +473,44 @@ func Replay(r *fw.Run, raw json.RawMessage) {
 		}
 		p = got
 	}
-	if msg, _ := agree(c.Kind, p, c.T, ph(c.Root), c.N, ph(c.Leaf)); msg != "" {
-		r.Violation("agree", msg, c)
+	done := make(chan string, 1)
+	go func() {
+		defer func() {
+			if e := recover(); e != nil {
+				done <- fmt.Sprintf("panic: %v", e)
+			}
+		}()
+		if c.Kind == "prover" {
+			lg, _ := tlogx.Build(tlogx.Pattern(0, c.Size))
+			var err error
+			switch c.Note {
+			case "ProveRecord(H,0)":
+				_, err = tlog.ProveRecord(c.T, 0, lg)
+			case "ProveRecord(H,H-1)":
+				_, err = tlog.ProveRecord(c.T, c.T-1, lg)
+			case "ProveTree(H,1)":
+				_, err = tlog.ProveTree(c.T, 1, lg)
+			case "ProveTree(H,H-1)":
+				_, err = tlog.ProveTree(c.T, c.T-1, lg)
+			default:
+				_, err = tlog.TreeHash(c.T, lg)
+			}
+			if err == nil {
+				done <- "succeeded although the store cannot hold such a tree"
+			} else {
+				done <- ""
+			}
+			return
+		}
+		msg, _ := agree(c.Kind, p, c.T, ph(c.Root), c.N, ph(c.Leaf))
+		done <- msg
+	}()
+	select {
+	case msg := <-done:
+		if msg != "" {
+			r.Violation("agree", msg, c)
+		}
+	case <-time.After(90 * time.Second):
+		r.Violation("agree", "no result after 90 s (the call does not terminate)", c)
 	}
 }
